@@ -13,9 +13,9 @@
    the structure alone.  Proofs: proofs/SpecMechProofs.v, proofs/SpecTextProofs.v,
    proofs/SpecDocProofs.v. *)
 Require Import GM.model.Base GM.model.Util GM.model.UtilI GM.model.Ids GM.model.SpecMech GM.model.SpecDoc
-               GM.model.HtmlWriter GM.model.Refs GM.model.Blocks GM.model.Reader GM.model.ListItem GM.model.LeafBlocks.
+               GM.model.HtmlWriter GM.model.Refs GM.model.Blocks GM.model.Reader GM.model.ListItem GM.model.LeafBlocks GM.model.Delim GM.model.DelimI.
 Require Import GM.gen.Tables GM.gen.Entities.
-Require Import GM.proofs.SpecMechProofs GM.proofs.SpecTextProofs GM.proofs.SpecDocProofs GM.proofs.SpecTabProofs GM.proofs.ListItemProofs GM.proofs.LeafBlocksProofs.
+Require Import GM.proofs.SpecMechProofs GM.proofs.SpecTextProofs GM.proofs.SpecDocProofs GM.proofs.SpecTabProofs GM.proofs.ListItemProofs GM.proofs.LeafBlocksProofs GM.proofs.DelimProofs.
 Open Scope N_scope.
 
 (* the hard-break test (parser.go, after the fix) looks at the parity of the final run of
@@ -202,6 +202,32 @@ Theorem C02_fence_content_dedent_partial : forall (j : nat) (c ch : N) (rest : b
   fence_continue space_table (repeat 32 j ++ c :: rest) off 0 ch indent flen = inr (Z.min (Z.of_nat j) indent, 0%Z).
 Proof. exact (fence_content_dedent space_table eq_refl eq_refl eq_refl). Qed.
 Print Assumptions C02_fence_content_dedent_partial.
+
+(* ---- emphasis delimiter runs (model of parser.ScanDelimiter; the rune classes are the ranges
+   regenerated from the unicode package through util.IsPunctRune / util.IsSpaceRune) ---- *)
+
+(* ScanDelimiter's answer is the specification's can-open / can-close (section 6.2) of the
+   classes of the characters before and after the run *)
+Theorem C02_scan_delimiter_is_spec_partial : forall line before minimum co cc len ch after,
+  ScanDelimiter line before minimum = Ok (Some (co, cc, len, ch)) ->
+  (if (len =? zlen line)%Z then Ok 32 else to_rune line len) = Ok after ->
+  co = can_open (ch =? 95) (SpaceRune before) (PunctRune before) (SpaceRune after) (PunctRune after) /\
+  cc = can_close (ch =? 95) (SpaceRune before) (PunctRune before) (SpaceRune after) (PunctRune after) /\
+  len = count_byte ch line.
+Proof. exact (scan_delimiter_is_spec PunctRune SpaceRune emph_delim). Qed.
+Print Assumptions C02_scan_delimiter_is_spec_partial.
+
+(* the situations in which the generator places a delimiter run force one reading each: after
+   white space it only opens, before white space it only closes, between punctuation and a
+   letter it only opens, between a letter and punctuation it only closes *)
+Theorem C02_generated_delimiters_unambiguous : forall u bp bw aw ap,
+  (aw = false -> can_open u true bp aw ap = true /\ can_close u true bp aw ap = false) /\
+  (bw = false -> can_close u bw bp true ap = true /\ can_open u bw bp true ap = false) /\
+  (can_open u false true false false = true /\ can_close u false true false false = false) /\
+  (can_close u false false false true = true /\ can_open u false false false true = false).
+Proof. exact (fun u bp bw aw ap => conj (after_space_opens_only u bp aw ap) (conj (before_space_closes_only u bw bp ap)
+              (conj (punct_then_letter_opens_only u) (letter_then_punct_closes_only u)))). Qed.
+Print Assumptions C02_generated_delimiters_unambiguous.
 
 (* non-vacuity: the design-time deviation (three backslashes before the line end) is a hard break *)
 Example C02_demo : line_break_kind [97; 92; 92; 92; 10] = 1 /\ line_break_kind [97; 92; 92; 10] = 3.
